@@ -689,9 +689,9 @@ def log_only_local(fi, name: str) -> bool:
     seen = False
     for n in ast.walk(fi.node):
         if isinstance(n, ast.Name) and n.id == name:
-            seen = True
             if not isinstance(n.ctx, ast.Load):
                 continue
+            seen = True             # (a name that is never read at all is not a log counter: it stays visible to the rules)
             cur, ok = n, False
             while id(cur) in parents:
                 cur = parents[id(cur)]
